@@ -80,6 +80,7 @@ theorem pretty_refines_contents (u : PStr) (l : Int) (ks : List Node) (h : disti
 theorem plain_refines (u : PStr) (t : Node) : decodeImpl u none (events t) = plain t := by
   rw [decodeImpl_eq_run, run_plain u _ _ rfl, pieces_events]
 
+/-- plain mode on the children's stream (`decode_contents()`, hidden receiver) -/
 theorem plain_refines_contents (u : PStr) (ks : List Node) : decodeImpl u none (eventsL ks) = plainL ks := by
   rw [decodeImpl_eq_run, run_plain u _ _ rfl, pieces_eventsL]
 
@@ -142,6 +143,7 @@ theorem ends_with_newline (u : PStr) (l : Int) (t : Node) (hd : distinct t = tru
   have h := line_structure u l t hd hv
   exact EndsNl.getLast (h ▸ layout_endsNl u l _) hne
 
+/-- the same for the children's stream (`decode_contents`, `BeautifulSoup.prettify()`) -/
 theorem ends_with_newline_contents (u : PStr) (l : Int) (ks : List Node) (hd : distinctL ks = true)
     (hv : preVisibleL ks = true) (hne : decodeImpl u (some l) (eventsL ks) ≠ []) :
     (decodeImpl u (some l) (eventsL ks)).getLast? = some 10 := by
@@ -181,6 +183,7 @@ theorem nonws_equal (u : PStr) (l : Int) (t : Node) (hd : distinct t = true) (hu
   rw [pretty_refines u l t hd, plain_refines]
   exact dropWs_pretty u hu t l false
 
+/-- the same for the children's stream (`decode_contents`, `BeautifulSoup.prettify()`) -/
 theorem nonws_equal_contents (u : PStr) (l : Int) (ks : List Node) (hd : distinctL ks = true)
     (hu : ∀ c ∈ u, isSpace c = true) :
     dropWs (decodeImpl u (some l) (eventsL ks)) = dropWs (decodeImpl u none (eventsL ks)) := by
@@ -278,8 +281,8 @@ example : mkTag 7 (ofS "<br/>") (ofS "</br>") (some BS.Gen.Pretty.htmlPreserveWs
   rfl
 
 /-- Table sanity (generated from `str.isspace` of the running CPython): the characters pretty-printing inserts — space,
-    newline — and tab are whitespace; the zero-width space is not. -/
+    newline — and tab are whitespace; the zero-width space and the markup characters `<`, `>`, `&` are not. -/
 theorem whitespace_table : isSpace 32 = true ∧ isSpace 10 = true ∧ isSpace 9 = true ∧ isSpace 0x200b = false ∧
-    BS.Gen.Pretty.whitespace.length = 29 := by decide +kernel
+    isSpace 60 = false ∧ isSpace 62 = false ∧ isSpace 38 = false := by decide +kernel
 
 end BS.Props.C14
